@@ -496,6 +496,7 @@ func drive(prop, tier string) int {
 		"probes":                   probes,
 		"scenario_kinds":           kinds,
 		"distinct_states":          len(states),
+		"distinct_states_by_kind":  statesByKind(states),
 		"components":               p.RealStub,
 		"workers":                  W,
 		"known_findings_seen":      keys(reportedKnown),
@@ -677,4 +678,17 @@ func tail(s []string, n int) []string {
 		return s[len(s)-n:]
 	}
 	return s
+}
+
+// statesByKind counts distinct state digests per prefix (the part before the first ':').
+func statesByKind(states map[string]bool) map[string]int {
+	out := map[string]int{}
+	for s := range states {
+		k := s
+		if i := strings.Index(s, ":"); i > 0 {
+			k = s[:i]
+		}
+		out[k]++
+	}
+	return out
 }
